@@ -38,6 +38,11 @@ pub trait Be: 'static {
     fn vbuild(_via: &str, data: &[Self::T]) -> V<Self> {
         <V<Self> as BaseVector<Self::T>>::from_array(data)
     }
+    /// `DenseMatrix::iter()` consumed through nth / skip / step_by / count / last / size_hint (after k calls of
+    /// next); None for back ends without `iter`
+    fn iter_mode(_m: &Self::M, _mode: &str, _k: usize) -> Option<Vec<f64>> {
+        None
+    }
     /// `DenseMatrix::iter()`; None for back ends without it
     fn iter_flat(m: &Self::M) -> Option<Vec<Self::T>>;
     fn veq(a: &V<Self>, b: &V<Self>) -> bool;
@@ -742,6 +747,13 @@ impl<B: Be> File<B> {
                 let mut buf = vec![B::T::from_i64x(-77); ma!().shape().0];
                 ma!().copy_col_as_vec(idx(0), &mut buf);
                 Res::Ints(fv(&buf))
+            }
+            "iter_nth" | "iter_skip" | "iter_step" | "iter_count" | "iter_last" | "iter_size_hint" => {
+                let k = us(ia(0).max(0));
+                match B::iter_mode(ma!(), &call.op, k) {
+                    Some(v) => Res::Ints(v),
+                    None => panic!("{}", MALFORMED),
+                }
             }
             "iter" => match B::iter_flat(ma!()) {
                 Some(v) => Res::Ints(fv(&v)),
